@@ -139,6 +139,52 @@ def count_unsafe(src):
     return blocks, fns, impls, raw
 
 
+CMP = re.compile(r"^\s*(-?\w+)\s*(<=|>=|<|>|==|!=)\s*(-?\w+)\s*$")
+
+
+def cmp_to_lean(expr, var):
+    """`balance_factor > 1` / `1 < balance_factor` -> Lean Bool term over `(x : Int)`; None if not of that shape."""
+    m = CMP.match(expr)
+    if not m:
+        return None
+    a, op, b = m.groups()
+    def term(t):
+        if t == var:
+            return "x"
+        if re.fullmatch(r"-?\d+", t):
+            return f"({t} : Int)"
+        return None
+    ta, tb = term(a), term(b)
+    if ta is None or tb is None or "x" not in (ta, tb):
+        return None
+    return f"decide ({ta} {op} {tb})"
+
+
+def rebalance_conditions(src):
+    """The four conditions of `rebalance`: (balance_factor heavy-left, left child's factor, heavy-right, right child's factor)."""
+    body = function_body(src.replace("fn rebalance", "pub fn rebalance"), "rebalance")
+    if body is None:
+        return None
+    body = strip_comments(body)
+    conds = re.findall(r"\bif\s+([^\{]+?)\s*\{", body)
+    out = []
+    for var in ("balance_factor", "left_balance_factor", "balance_factor", "right_balance_factor"):
+        hit = None
+        for c in conds:
+            # each variable's conditions in order of appearance; balance_factor occurs twice
+            if re.search(r"(?<![a-z_])" + var + r"(?![a-z_])", c) and not (var == "balance_factor" and ("left_" in c or "right_" in c)):
+                hit = c
+                conds.remove(c)
+                break
+        if hit is None:
+            return None
+        t = cmp_to_lean(hit, var)
+        if t is None:
+            return None
+        out.append(t)
+    return out
+
+
 def lean_list(xs):
     return "[" + ", ".join('"' + x + '"' for x in xs) + "]"
 
@@ -226,6 +272,18 @@ def main():
         lines.append(f"def {nm}Registers : List String := {lean_list(regs)}")
         lines.append(f"def {nm}Init : List String := {lean_list(init)}")
         lines.append(f"def {nm}NodeBase : Nat := {base}")
+    # rebalance thresholds (as Bool functions of the balance factor)
+    for rel, nm in [("src/collections/avl_tree.rs", "tree32"), ("src/collections/u8_avl_tree.rs", "tree8")]:
+        rc = rebalance_conditions(strip_tests(read(rel)))
+        if rc is None:
+            unparsed.append(f"{rel}: rebalance conditions")
+            rc = ["decide (x > (1 : Int))", "decide (x < (0 : Int))", "decide (x < (-1 : Int))", "decide (x > (0 : Int))"]
+        facts[nm]["rebalance"] = rc
+        lines.append(f"/-- {rel}: the conditions of `rebalance` on the balance factor (left height - right height): rotate right,")
+        lines.append("    rotate the left child left first, rotate left, rotate the right child right first. -/")
+        for name, t in zip(("HeavyLeft", "LeftChildRightHeavy", "HeavyRight", "RightChildLeftHeavy"), rc):
+            lines.append(f"def {nm}{name} (x : Int) : Bool := {t}")
+    lines.append("")
     hs = strip_tests(read("src/collections/hash_set.rs"))
     bb = macro_base(hs, "bucket_node")
     if bb is None:
